@@ -70,4 +70,170 @@ theorem parseNumber_le (k n : Nat) (rest : Bytes) (minimum : Nat) (h : n < 256 ^
   simp [ofLE_leBytes, Nat.mod_eq_of_lt h]
   omega
 
+/-- T4: `serialize` answers exactly on `0 ≤ i < 2^64`, refuses the rest with the library's
+    ValueError, and never leaves through a foreign exception. -/
+theorem serialize_domain (i : Int) :
+    (0 ≤ i ∧ i < 2 ^ 64 → ∃ b, Gen.VarInt.serialize i = .ok b) ∧
+    (¬ (0 ≤ i ∧ i < 2 ^ 64) → Gen.VarInt.serialize i = .error .value) := by
+  constructor
+  · rintro ⟨h0, h1⟩
+    obtain ⟨n, rfl⟩ := Int.eq_ofNat_of_zero_le h0
+    rw [serialize_nat]
+    have : n ≤ 18446744073709551615 := by omega
+    simp only [this, if_true]
+    repeat' split
+    all_goals exact ⟨_, rfl⟩
+  · intro h
+    by_cases h0 : 0 ≤ i
+    · obtain ⟨n, rfl⟩ := Int.eq_ofNat_of_zero_le h0
+      rw [serialize_nat]
+      have : ¬ n ≤ 18446744073709551615 := by omega
+      have h1 : ¬ n < 253 := by omega
+      have h2 : ¬ n ≤ 65535 := by omega
+      have h3 : ¬ n ≤ 4294967295 := by omega
+      simp [h1, h2, h3, this]
+    · unfold Gen.VarInt.serialize
+      have : i < 0 := by omega
+      simp [this]
+      rfl
+
+/-- T1 (parse ∘ serialize, prefix-free): whatever follows the encoding is left unread, and the
+    value comes back — or is refused as too big, exactly when it exceeds the cap. -/
+theorem parse_serialize (i : Int) (b rest : Bytes) (m : Nat)
+    (h : Gen.VarInt.serialize i = .ok b) :
+    parse (b ++ rest) m = if i.toNat > m then .error .toobig else .ok (i.toNat, rest) := by
+  have h0 : 0 ≤ i := by
+    by_cases h0 : 0 ≤ i
+    · exact h0
+    · have := (serialize_domain i).2 (by omega)
+      rw [this] at h; cases h
+  obtain ⟨n, rfl⟩ := Int.eq_ofNat_of_zero_le h0
+  rw [serialize_nat] at h
+  simp only [Int.toNat_natCast]
+  split at h
+  · cases h
+    rename_i h1
+    have hx : (UInt8.ofNat n).toNat = n := by simp [UInt8.toNat_ofNat']; omega
+    simp only [List.cons_append, List.nil_append, parse_cons, hx]
+    have a1 : n ≠ 253 := by omega
+    have a2 : n ≠ 254 := by omega
+    have a3 : n ≠ 255 := by omega
+    simp [a1, a2, a3, checkMax]
+  · split at h
+    · cases h
+      rename_i h1 h2
+      simp only [List.cons_append, parse_cons]
+      simp [parseNumber_le 2 n rest 253 (by omega), h1, Except.bind, checkMax]
+    · split at h
+      · cases h
+        rename_i h1 h2 h3
+        simp only [List.cons_append, parse_cons]
+        have : ¬ n < 65536 := by omega
+        simp [parseNumber_le 4 n rest 65536 (by omega), this, Except.bind, checkMax]
+      · split at h
+        · cases h
+          rename_i h1 h2 h3 h4
+          simp only [List.cons_append, parse_cons]
+          have : ¬ n < 4294967296 := by omega
+          simp [parseNumber_le 8 n rest 4294967296 (by omega), this, Except.bind, checkMax]
+        · cases h
+
+/-- T2 (serialize ∘ parse): any byte string the parser accepts starts with exactly the canonical
+    encoding of the value it returns; hence no non-minimal prefix and no short read is accepted. -/
+theorem serialize_parse (b rest : Bytes) (v m : Nat)
+    (h : parse b m = .ok (v, rest)) :
+    ∃ b', Gen.VarInt.serialize (v : Int) = .ok b' ∧ b = b' ++ rest := by
+  cases b with
+  | nil => simp [parse, parseWith] at h
+  | cons x xs =>
+    rw [parse_cons] at h
+    have hx : x.toNat < 256 := x.toNat_lt
+    have number : ∀ (k minimum : Nat) (p : UInt8), p = x →
+        (parseNumber xs k minimum).bind (checkMax m) = .ok (v, rest) →
+        minimum ≤ v ∧ v < 256 ^ k ∧ p :: xs = p :: leBytes k v ++ rest := by
+      intro k minimum p _ hp
+      unfold parseNumber at hp
+      split at hp
+      · cases hp
+      · rename_i hlen
+        simp only at hp
+        split at hp
+        · cases hp
+        · rename_i hmin
+          simp only [Except.bind, checkMax] at hp
+          split at hp
+          · cases hp
+          · cases hp
+            have hl : (xs.take k).length = k := by simp; omega
+            refine ⟨by omega, ?_, ?_⟩
+            · have := ofLE_lt (xs.take k); rwa [hl] at this
+            · have := leBytes_ofLE (xs.take k)
+              rw [hl] at this
+              rw [this, List.cons_append, List.take_append_drop]
+    rw [serialize_nat]
+    split at h
+    · rename_i e
+      obtain ⟨h1, h2, h3⟩ := number 2 253 x rfl h
+      have p : x = 253 := by apply UInt8.toNat_inj.mp; simpa using e
+      have a1 : ¬ v < 253 := by omega
+      have a2 : v ≤ 65535 := by omega
+      exact ⟨253 :: leBytes 2 v, by simp only [a1, a2, if_true, if_false], by rw [h3, p]⟩
+    · split at h
+      · rename_i _ e
+        obtain ⟨h1, h2, h3⟩ := number 4 65536 x rfl h
+        have p : x = 254 := by apply UInt8.toNat_inj.mp; simpa using e
+        have a1 : ¬ v < 253 := by omega
+        have a2 : ¬ v ≤ 65535 := by omega
+        have a3 : v ≤ 4294967295 := by omega
+        exact ⟨254 :: leBytes 4 v, by simp only [a1, a2, a3, if_true, if_false], by rw [h3, p]⟩
+      · split at h
+        · rename_i _ _ e
+          obtain ⟨h1, h2, h3⟩ := number 8 4294967296 x rfl h
+          have p : x = 255 := by apply UInt8.toNat_inj.mp; simpa using e
+          have a1 : ¬ v < 253 := by omega
+          have a2 : ¬ v ≤ 65535 := by omega
+          have a3 : ¬ v ≤ 4294967295 := by omega
+          have a4 : v ≤ 18446744073709551615 := by omega
+          exact ⟨255 :: leBytes 8 v, by simp only [a1, a2, a3, a4, if_true, if_false], by rw [h3, p]⟩
+        · rename_i n1 n2 n3
+          simp only [checkMax] at h
+          split at h
+          · cases h
+          · cases h
+            have a1 : x.toNat < 253 := by omega
+            refine ⟨_, by simp only [a1, if_true]; rfl, ?_⟩
+            simp
+
+/-- T3: the reported width is the length of the serialization (translated `_size` against the
+    translated `serialize`, for every integer the latter accepts). -/
+theorem size_eq_length (i : Int) (b : Bytes) (h : Gen.VarInt.serialize i = .ok b) :
+    Gen.VarInt.size i = b.length := by
+  have h0 : 0 ≤ i := by
+    by_cases h0 : 0 ≤ i
+    · exact h0
+    · have := (serialize_domain i).2 (by omega)
+      rw [this] at h; cases h
+  obtain ⟨n, rfl⟩ := Int.eq_ofNat_of_zero_le h0
+  rw [serialize_nat] at h
+  unfold Gen.VarInt.size
+  split at h
+  · cases h; rename_i h1; have : (n:Int) < 253 := by omega
+    simp [this]
+  · rename_i h1
+    have a1 : ¬ (n:Int) < 253 := by omega
+    split at h
+    · cases h; rename_i h2; have : (n:Int) ≤ 65535 := by omega
+      simp [a1, this]
+    · rename_i h2
+      have a2 : ¬ (n:Int) ≤ 65535 := by omega
+      split at h
+      · cases h; rename_i h3; have : (n:Int) ≤ 4294967295 := by omega
+        simp [a1, a2, this]
+      · rename_i h3
+        have a3 : ¬ (n:Int) ≤ 4294967295 := by omega
+        split at h
+        · cases h; simp [a1, a2, a3]
+        · cases h
+
+
 end Btc.VarInt
